@@ -7,6 +7,8 @@ Static clauses:
            the convention.
   SIB      the two Expression -> PlutusData converters (compile_data_expr for datums, TryIntoData for redeemers) accept the
            same Expression variants; likewise compile_struct / TryIntoData for StructExpr use the same constructor function
+           ... and each of the two StructExpr converters hands `constructor` to constr() on every path on which it succeeds
+           (no shortcut that encodes field-less values as alternative 0)
   ORDER    at lowering, record fields are pushed in declaration order (loop over case_def.fields) and the constructor index is
            the case's position in the type definition
   PANIC    no undischarged panic site in the data-encoding closure (integers beyond 64 bits must not panic)
